@@ -397,6 +397,7 @@ func c11History(a vh.Args, o *vh.Oracle, r *vh.Result, rng *vh.Rand) error {
 	}
 	for k := 0; k < n; k++ {
 		c := c11GenHist(rng)
+		r.Running(c)
 		bad, err := c11CheckHist(o, r, c, false)
 		if err != nil {
 			return err
